@@ -319,6 +319,30 @@ def run(tier, seed):
     rng = rng_for(seed, PID, "cli")
     cli_inputs = [bound_powers(gen_soup(rng, vocab)) for _ in range(60 if tier == "quick" else 400)] + [bound_powers(gen_unicode(rng)) for _ in range(40 if tier == "quick" else 200)]
     cli_sample(acc, b, cli_inputs, 2 if tier == "quick" else 12)
+    if tier == "thorough":
+        from core import sanit
+        r2 = rng_for(seed, PID, "asan")
+        ins = []
+        for _ in range(40000):
+            x = r2.random()
+            ins.append(bound_powers(gen_unicode(r2) if x < 0.25 else gen_soup(r2, vocab) if x < 0.5 else gen_structured(r2, vocab) if x < 0.8 else mutate(r2, r2.choice(corp))))
+        try:
+            reps, reports, code = sanit.asan_run([{"op": "query", "q": q, "full": True, "render": True} for q in ins], timeout=7200)
+            for q, rep in zip(ins, reps):
+                acc.evaluations += 1
+                acc.count("family_asan")
+                judge(acc, q, rep, "asan", "asan")
+            acc.counters["asan_reports"] = len(reports)
+            for r in reports:
+                who, frame = sanit.classify(r)
+                if who == "anything":
+                    acc.violate("c11:asan:" + str(frame), "AddressSanitizer report with a frame in the crate: " + r[:600], {"report": r[:4000]})
+                else:
+                    acc.count("asan_reports_in_dependencies_only")
+            if len(reps) < len(ins) and not reports:
+                acc.inconc("asan driver stopped after %d of %d inputs (exit %s) without a sanitizer report" % (len(reps), len(ins), code))
+        except Exception as ex:
+            acc.inconc("asan run failed: %r" % (ex,))
     acc.counters["corpus_queries"] = len(corp)
     return finish(PID, tier, seed, "exploration", acc, RULE, t0,
                   assumptions=["inputs are kept inside the property's bounds by a static filter (powers <= 2 digits, product of power magnitudes <= 100, exponents <= 3 digits, round's digits argument <= 2 digits); outside them the repeated-multiplication power loop simply runs long",
